@@ -5,6 +5,7 @@
     Boost, iostreams and the allocator are below the model and are covered only
     by the sanitizer-instrumented correspondence run. *)
 From Coq Require Import List NArith ZArith Bool Arith.
+Require Import Celma.ArgH.ArgFile Celma.ArgH.ArgFileSafe.
 Import ListNotations.
 Require Import Celma.Common.Res Celma.ArgH.Key Celma.ArgH.Lex Celma.ArgH.Handler Celma.ArgH.Sources
                Celma.ArgH.Alloc Celma.ArgH.SafeProofs.
@@ -36,6 +37,24 @@ Theorem C04_sources_total :
   forall c inits file env argv, nofault (eval_sources c inits file env argv).
 Proof. exact eval_sources_nofault. Qed.
 Print Assumptions C04_sources_total.
+
+(** ... with an argument that names an argument file (ArgH/ArgFile.v): for ANY
+    words and ANY set of named files - files that name themselves or each
+    other included - the evaluation comes back (iterator invariant, loop
+    measure, and the limit on the number of argument files open at a time).
+    The pinned code had no such limit: a file that names itself recursed until
+    the stack was exhausted (found here, repaired: "fix: an argument file that
+    names itself no longer ends in a stack overflow"); now it is refused. *)
+Theorem C04_named_files_total :
+  forall c af inits file env argv, nofault (eval_sources_af c af inits file env argv).
+Proof. exact eval_sources_af_nofault. Qed.
+Print Assumptions C04_named_files_total.
+
+Theorem C04_self_including_file_refused :
+  eval_sources_af self_cfg self_af [VStr []] None None [[45; 45; 97; 114; 103; 45; 102; 105; 108; 101]; [102]]%N
+  = Err ERuntime.
+Proof. exact self_including_file_refused. Qed.
+Print Assumptions C04_self_including_file_refused.
 
 (** the hand-sized buffers: the program-name copy holds the terminator (after
     the repair; the pinned size overflows by one byte for every name), the
